@@ -72,8 +72,15 @@ class Built:
             self.pd_vals = programs.eval_pandas(self.prog, self.src_pd)
         return self.pd_vals
 
-    def eval_dx(self):
-        with warnings.catch_warnings():
+    def eval_dx(self, method=None):
+        """Build the dask-expr values.  `method`: shuffle method in force while BUILDING (the declared meta of a
+        shuffle depends on the configured method at build time, so build and optimize must see the same config)."""
+        import contextlib
+
+        import dask
+
+        ctx = dask.config.set({"dataframe.shuffle.method": method}) if method else contextlib.nullcontext()
+        with warnings.catch_warnings(), ctx:
             warnings.simplefilter("ignore")
             self.dx_vals = programs.eval_dask(self.prog, self.src_dx)
         return self.dx_vals
